@@ -88,6 +88,12 @@ def run(ctx):
                 ctx.disagreements.append({"probe": "scan_default", "input": jsonable(a[:2]), "model": jsonable(m), "impl": jsonable(outs[id(a)])})
 
 
+def scan_oracle(ctx, data, depth, tree, out):
+    if tree is None:
+        return [f"scan(depth={depth}) did not return a tree: {out}"]
+    return views_total(tree)
+
+
 def search(ctx):
     ctx.tier = "thorough"
     run(ctx)
